@@ -64,9 +64,23 @@ def published_key_rules(prog, chk, pid):
     ok = len(sets) == 1
     if ok:
         v = unsnap(sets[0].d["value"])
-        ok = v.op == "or" and len(v.args[0]) == 2 and unsnap(v.args[0][0]).op == "param" and unsnap(v.args[0][0]).args[0] == "public_key" and is_call_named(unsnap(v.args[0][1]), "create_public_ecc_key_from_der_fmt")
+        is_given = lambda t: unsnap(t).op == "param" and unsnap(t).args[0] == "public_key"
+        dflt_t = None
+        if v.op == "or" and len(v.args[0]) == 2 and is_given(v.args[0][0]):
+            dflt_t = unsnap(v.args[0][1])
+        elif v.op == "phi":
+            # the same choice as a conditional expression / if statement: the default is taken exactly when no key was given (falsy or None)
+            from bfsa.guard import rel as _rel
+
+            cond, x, y = v.args
+            for given, other, pol in ((x, y, True), (y, x, False)):
+                if is_given(given):
+                    r_ = _rel(cond, pol)
+                    if r_[0] == "rel" and is_given(r_[2]) and (r_[1] == "Truthy" or (r_[1] in ("IsNot", "NotEq") and r_[3] is not None and is_const(unsnap(r_[3])) and cval(unsnap(r_[3])) is None)):
+                        dflt_t = unsnap(other)
+        ok = dflt_t is not None and is_call_named(dflt_t, "create_public_ecc_key_from_der_fmt")
         if ok:
-            a = unsnap(unsnap(v.args[0][1]).args[1][0])
+            a = unsnap(dflt_t.args[1][0])
             ok = a.op == "sub" and unsnap(a.args[0]).op == "static" and unsnap(a.args[0]).args[0].endswith("DEFAULT_PUBLIC_KEYS") and unsnap(a.args[1]).op == "param" and unsnap(a.args[1]).args[0] == "key_selector"
     dflt = prog.try_fold(fi.module, fi.node.args.defaults[0], cls=fi.cls, default="?") if fi.node.args.defaults else "?"
     chk.require(ok and dflt == 0, P("default-recipient"), fi.qualname, "public_key or from_der(DEFAULT_PUBLIC_KEYS[key_selector]); key_selector defaults to KEYSEL_FW_STD", "%s:%d" % (fi.file, fi.lineno), "without an explicit recipient the block is addressed to the published key of its selector", "default recipient is not DEFAULT_PUBLIC_KEYS[key_selector]")
